@@ -796,6 +796,55 @@ def param_index_of_type(fn, ty_pat):
     return hits[0] if len(hits) == 1 else None
 
 
+class ParamAccess:
+    """A handler parameter located by its type: either a parameter itself, or one field of a private parameter struct that
+    bundles several of them (`struct SwapOptions { belief_price, max_spread, to }`)."""
+
+    def __init__(self, fn, i, field=None):
+        self.fn, self.i, self.field = fn, i, field
+
+    def path(self):
+        return () if self.field is None else (("f", self.field),)
+
+    def root(self, suffix=""):
+        return "P:%s#%d%s%s" % (self.fn.path, self.i, "" if self.field is None else "." + str(self.field), suffix)
+
+    def some_root(self):
+        """root string of the payload of this Option parameter (`x.unwrap_or(..)`, `if let Some(v) = x`)"""
+        return self.root() if self.field is None else self.root("~Some.0")
+
+    def arg_roots(self, R, callvalue, extra=()):
+        return set(R.roots(callvalue[4][self.i], self.path() + tuple(extra)))
+
+    def arg_value(self, callvalue):
+        v = callvalue[4][self.i]
+        return v if self.field is None else proj(v, ("f", self.field))
+
+    def value(self):
+        v = ("param", self.fn.path, self.i)
+        return v if self.field is None else proj(v, ("f", self.field))
+
+
+def param_accesses(P, fn, ty_pat):
+    """All ParamAccess of fn whose type matches: direct parameters first, else fields of workspace struct parameters."""
+    out = [ParamAccess(fn, i - 1) for i in range(1, fn.body.arg_count + 1) if re.search(ty_pat, fn.body.locals[i]["ty"])]
+    if out:
+        return out
+    for i in range(1, fn.body.arg_count + 1):
+        a = P.adts.get(strip_ty(fn.body.locals[i]["ty"]))
+        if a is None or a["kind"] != "struct" or not a["path"].startswith(("halo_pair::", "halo_factory::", "halo_router::", "haloswap::")):
+            continue
+        for f in a["variants"][0]["fields"]:
+            if re.search(ty_pat, f["ty"]):
+                out.append(ParamAccess(fn, i - 1, f["name"]))
+    return out
+
+
+def param_access(P, fn, ty_pat):
+    hits = param_accesses(P, fn, ty_pat)
+    return hits[0] if len(hits) == 1 else None
+
+
 def span_of_block_term(fn, b):
     return fn.body.blocks[b]["term"]["span"].replace("!x", "")
 
